@@ -275,6 +275,12 @@ func vpEq_Endpoints(a, b *Endpoints) bool {
 }
 func vpZero_Endpoints(a *Endpoints) bool { return a == nil }
 
+// a field whose type the harness library does not know (added to a struct after these harnesses were
+// written): it has no shapes, is never populated and compares as equal; the cells of all other fields
+// keep running
+func vpEq_Unknown(a, b any) bool { return true }
+func vpZero_Unknown(a any) bool  { return true }
+
 // vpShapes returns the number of shapes offered for a field kind.
 func vpShapes(kind string) int {
 	switch kind {
